@@ -883,7 +883,9 @@ fn giant_inputs(prop: &str, seed: u64, w: u32, thorough: bool) -> Inputs {
             let ten = vec![10u8];
             let mut p = gen::small(n, 1);
             let mut kk = 0u32;
-            let step = if thorough || w <= 2080 { 1 } else { 61 };
+            // (every power at 2080 bits; at 8192 bits the logarithms of 1024-digit values cost ~0.5 s per value in a
+            // debug build, so a rotating 1/16 (thorough) or 1/61 (quick) of the 2466 powers)
+            let step = if w <= 2080 { 1 } else if thorough { 16 } else { 61 };
             let off = (seed % step as u64) as u32;
             loop {
                 if kk % step == off || kk < 2 {
